@@ -1215,3 +1215,21 @@ package fosite
 //@   assert @call(IntrospectToken)#2 [C09.caller-authenticated] (bearer_of(r) != "" && token != bearer_of(r) && intro_accepts > old(intro_accepts)) || (bearer_of(r) == "" && secret_ok_n > old(secret_ok_n))
 //@   ensures [C09.inactive-nothing-but-false] err != nil ==> result != nil && !cast(result, *IntrospectionResponse).Active && cast(result, *IntrospectionResponse).AccessRequester == nil && cast(result, *IntrospectionResponse).TokenUse == ""
 //@   ensures [C09.active-needs-accepted-token] err == nil ==> result != nil && cast(result, *IntrospectionResponse).Active && intro_accepts > old(intro_accepts)
+
+// ---------------------------------------------------------------- C18: the token endpoint returns a response only if every handler succeeded
+//@ interface TokenEndpointHandler.PopulateTokenEndpointResponse
+//@   modifies everything
+//@ func NewAccessResponse
+//@   ensures result != nil && fresh(result)
+//@ func (*Fosite).NewAccessResponse
+//@   bridge
+//@   requires f != nil && requester != nil
+//@   modifies everything
+//@   ensures [C18.no-response-after-handler-error] err != nil ==> result == nil
+//@   ensures [C18.response-carries-token] err == nil ==> result != nil && result.GetAccessToken() != "" && result.GetTokenType() != ""
+//@ func (*AccessResponse).GetAccessToken
+//@   requires a != nil
+//@   ensures result == a.AccessToken
+//@ func (*AccessResponse).GetTokenType
+//@   requires a != nil
+//@   ensures result == a.TokenType
